@@ -1,9 +1,11 @@
 import PyYetiVerif.Lemmas.RigidBody
 import PyYetiVerif.Model.RigidBodyGuyan
+import PyYetiVerif.Lemmas.Coord
+import Mathlib.Tactic.IntervalCases
 import Mathlib.Algebra.BigOperators.Fin
 import Mathlib.Algebra.BigOperators.Ring.Finset
 /-! Helper lemmas for the C06 extension: `sumN` as a `Finset` sum, `idxIn` on duplicate-free lists,
-`idxWhere`. -/
+`idxWhere`, Python's `max`, rows of a rotation, one grid's contribution to a resultant. -/
 set_option linter.unusedVariables false
 set_option linter.unusedSimpArgs false
 set_option linter.unusedSectionVars false
@@ -127,5 +129,68 @@ theorem mem_idxWhere {l : List Bool} {i x : Nat} :
         by_cases hb : b = true
         · simp only [hb, if_true, List.mem_cons]; exact Or.inr hmem
         · simp only [hb, if_false]; exact hmem
+
+
+/-! ### Python's `max`, rotations, resultants (used by Props/C06c.lean) -/
+
+section more
+open PyYetiVerif.Coord
+
+theorem pyMax_zero : pyMax (0 : ℝ) 0 = 0 := by simp [pyMax]
+
+theorem pyMax_nonneg {a b : ℝ} (ha : 0 ≤ a) (hb : 0 ≤ b) : 0 ≤ pyMax a b := by
+  unfold pyMax; split_ifs <;> assumption
+
+/-- a rotation maps `r1 × r2` to `r0` etc.: for `IsFrame Fᵀ` (rows of `F` orthonormal, `det = 1`) the rows satisfy
+`r0 = r1 × r2`, `r1 = r2 × r0`, `r2 = r0 × r1` -/
+theorem frame_rows_cross (F : M3 ℝ) (h : IsFrame F.transpose) :
+    F.r1.cross F.r2 = F.r0 ∧ F.r2.cross F.r0 = F.r1 ∧ F.r0.cross F.r1 = F.r2 := by
+  have hdet : F.det = 1 := by rw [← det_transpose]; exact h.2
+  have hdet0 : F.det ≠ 0 := by rw [hdet]; exact one_ne_zero
+  -- `Fᵀ` is the inverse of `F`: `F.inv = F.inv (F Fᵀ) = Fᵀ`
+  have h1 : F.mul F.transpose = M3.one := by
+    have := h.1; rwa [transpose_transpose] at this
+  have hinv : F.inv = F.transpose := by
+    have := congrArg (fun X => F.inv.mul X) h1
+    simp only [← mul_assoc3, inv_mul_self F hdet0, one_mul3, mul_one3] at this
+    exact this.symm
+  simp only [M3.inv, hdet] at hinv
+  have e := M3.ext_iff.1 hinv
+  simp only [M3.ofCols, M3.transpose, M3.col0, M3.col1, M3.col2, V3.sdiv, V3.ext_iff, div_one] at e
+  obtain ⟨⟨a0, a1, a2⟩, ⟨b0, b1, b2⟩, ⟨c0, c1, c2⟩⟩ := e
+  refine ⟨?_, ?_, ?_⟩ <;> ext <;> simp_all
+
+end more
+
+section net
+variable {K : Type} [CommRing K]
+
+theorem rbgeom_row (p : Nat → V3 K) (r : V3 K) (g a j : Nat) (ha : a < 6) :
+    rbgeom p r (6 * g + a) j = rbBlock (p g) r a j := by
+  unfold rbgeom
+  have h1 : (6 * g + a) / 6 = g := by omega
+  have h2 : (6 * g + a) % 6 = a := by omega
+  rw [h1, h2]
+
+/-- a sum over `6 ng` rows, grid by grid -/
+theorem sumN_six_blocks (ng : Nat) (f : Nat → K) :
+    sumN (6 * ng) f = sumN ng fun g => f (6 * g) + f (6 * g + 1) + f (6 * g + 2) + f (6 * g + 3)
+      + f (6 * g + 4) + f (6 * g + 5) := by
+  induction ng with
+  | zero => simp [sumN]
+  | succ n ih => rw [sumN_six_succ, ih]; simp [sumN]
+
+/-- one grid: the six rows of `rbgeom` applied (transposed) to the grid's force/moment give the
+force and the moment moved to the reference point -/
+theorem rbBlock_resultant (p r : V3 K) (f0 f1 f2 f3 f4 f5 : K) (j : Nat) (hj : j < 6) :
+    rbBlock p r 0 j * f0 + rbBlock p r 1 j * f1 + rbBlock p r 2 j * f2 + rbBlock p r 3 j * f3
+        + rbBlock p r 4 j * f4 + rbBlock p r 5 j * f5
+      = pick6 j f0 f1 f2
+          (f3 + ((p.y - r.y) * f2 - (p.z - r.z) * f1))
+          (f4 + ((p.z - r.z) * f0 - (p.x - r.x) * f2))
+          (f5 + ((p.x - r.x) * f1 - (p.y - r.y) * f0)) := by
+  interval_cases j <;> simp [rbBlock, pick6] <;> ring
+
+end net
 
 end PyYetiVerif.RigidBody
